@@ -39,7 +39,10 @@ CHECKS = {
               'tag dispatch); consistency of every (v1_key_case, dump transform) pair, AUTO tries the own name first, witness of the '
               'recorded Union finding. Outside the fragment the round trip is carried by the oracle: model tied to the code by round- '
               'trip + load correspondence over the v1 grammar incl. reversed-Union fields, histories over several main classes '
-              'sharing nested classes and transparent spellings (PEP 695 aliases, Annotated, Required / NotRequired); generator '
+              'sharing nested classes, transparent spellings (PEP 695 aliases, Annotated, Required / NotRequired), self-referential / '
+              'mutually recursive class models (defaulted fields around the recursive field, deep instances; compared with the model of '
+              'the unrolled class) and histories in which Union member classes are serialised on their own before / between uses of the '
+              'main class (own tags / auto_assign_tags x tag_key); generator '
               'failures are detected by the correspondence (loader generation is part of every case), not proved absent '),
         technique='Lean 4 proof over a hand (semantic) model + differential correspondence + round-trip oracle', ref='4 C02'),
     'C03': dict(
@@ -89,7 +92,7 @@ CHECKS = {
               "oracle against Condition.evaluate over hashable/unhashable/non-finite/Enum/object comparison values"),
         technique='Lean 4 proof over a hand model + generated operator table + differential correspondence', ref='4 C11'),
     'C12': dict(
-        text=("Lean theorems for both engines: merge specification (own setting wins, else root's) for every modelled mergeable setting, special attributes never inherited, recursive=False hands nothing down, the travelling config passes unchanged through every container and nested instance on dump and load; v1: a class two levels down is configured with merge(own, root) and its loader contains no mention of the intermediate class's Meta; attribute sets regenerated from AbstractMeta; models tied to the code over the settings lattice x shapes x binding styles, 2- and 3-level v1 nestings with 6 link shapes"),
+        text=("Lean theorems for both engines: merge specification (own setting wins, else root's) for every modelled mergeable setting, special attributes never inherited, recursive=False hands nothing down, the travelling config passes unchanged through every container and nested instance on dump and load; v1: a class two levels down is configured with merge(own, root) and its loader contains no mention of the intermediate class's Meta; attribute sets regenerated from AbstractMeta; models tied to the code over the settings lattice x shapes x binding styles, 2- and 3-level v1 nestings with 6 link shapes, v1 nested classes with a tag / tag_key / unknown-key policy / CatchAll of their own judged against a twin class, and default-engine roots with recursive_classes (lazily resolved nested classes, self-referential roots) judged against a twin"),
         technique='Lean 4 proof over hand models + generated attribute sets + differential correspondence', ref='4 C12'),
     'C13': dict(
         text=("Lean theorems for both engines: a dict whose tag key holds K's tag is loaded by K's loader for every position of K in the Union and any other members (dispatch on the tag alone); dump-then-load through the Union gives back the member instance for every member of the round-trip fragment on both engines (C13_roundtrip_tagged, C13_v1_roundtrip_tagged); unassigned / missing tags give ParseError; the tag key is known (never unknown, never captured), also when an init=False attribute mirrors it (v1); dump appends the tag under the configured key; models tied to the code over families, tag keys, argument rotations, container positions, load-before-any-dump streams on both engines; Unions declared in nested classes, under recursive_classes / self-referential main classes, with forward-reference members (oracle; dump first)"),
